@@ -8,6 +8,7 @@
 #include "htp_config.c"
 #define htp_connp_res_data_consumed tab_unused_consumed
 #include "htp_response.c"
+#include "htp_request.c"      /* for HTTP09_MAX_JUNK_LEN, a #define local to that file */
 #include <locale.h>
 
 static void mask256(const char *name, int (*f)(int)) {
@@ -211,7 +212,7 @@ int main(void) {
     CONSTN("MAX_HEADER_FOLDED", HTP_MAX_HEADER_FOLDED);
     CONSTN("FIELD_LIMIT_HARD", HTP_FIELD_LIMIT_HARD);
     CONSTN("FIELD_LIMIT_SOFT", HTP_FIELD_LIMIT_SOFT);
-    CONSTN("HTTP09_MAX_JUNK_LEN", 16);
+    CONSTN("HTTP09_MAX_JUNK_LEN", HTTP09_MAX_JUNK_LEN);
     CONSTN("COMPRESSION_BOMB_RATIO", HTP_COMPRESSION_BOMB_RATIO);
     CONSTN("COMPRESSION_BOMB_LIMIT", HTP_COMPRESSION_BOMB_LIMIT);
     CONSTN("GZIP_BUF_SIZE", GZIP_BUF_SIZE);
